@@ -1,7 +1,7 @@
 #!/bin/bash
-# seed_keep.sh <Cxx> <variant> : after seed_confirm.sh succeeded, keep the seed under /verif/seeded/<Cxx>-<variant>/
+# seed_keep.sh <Cxx> <variant> [srcroot] [dstvariant] : after seed_confirm.sh succeeded, keep the seed under /verif/seeded/<Cxx>-<dstvariant>/
 set -e
-src=/tmp/seed/$1/$2; dst=/verif/seeded/$1-$2
+src=${3:-/tmp/seed}/$1/$2; dst=/verif/seeded/$1-${4:-$2}
 mkdir -p $dst; cp $src/patch.diff $src/demo_test.go $dst/
 python3 - "$src/meta.json" "$dst/meta.json" "$(git -C /repo log --format=%h -1)" <<'P'
 import json,sys
